@@ -408,7 +408,7 @@ func genAPI(r *hx.Rand, tier string) input {
 // ------------------------------------------------------------ gen / shrink
 
 func gen(r *hx.Rand, tier string) []json.RawMessage {
-	nasm, nleaf, napi := 50, 15, 100
+	nasm, nleaf, napi := 40, 12, 80
 	if tier == "thorough" {
 		nasm, nleaf, napi = 250, 100, 1000
 	}
